@@ -274,7 +274,7 @@ def correspondence(ctx, model_ok=True):
     rng = ctx.rng.fork("c17")
     failures = []
     broken = []
-    n_tr = 9000 if ctx.thorough else 900
+    n_tr = 9000 if ctx.thorough else 7000
     cases = []
     cdir = os.path.join(vlib.VERIF, "corpus", "C17")
     for fn in sorted(os.listdir(cdir)) if os.path.isdir(cdir) else []:      # minimised past failures run first
